@@ -517,13 +517,13 @@ impl Pager {
 
         // We need to ensure that the frame is free
         if let Some(mem_page) = self.cache.remove(id) {
-            let page_size = self.page_size();
-
             // [MemPage::dealloc] consumes itself and creates a new MemPage with an overflow header.
             let deallocated_page = mem_page.dealloc();
 
-            // Here the write needs to write as an overflow page , regardless of the value of [P]
-            deallocated_page.with_bytes(|bytes| self.write_block(id, bytes, page_size))?;
+            // The freed image stays in the cache as a dirty frame and reaches the data file with the
+            // next checkpoint or eviction, like every other page change: written here, it would
+            // overwrite a page that the tree on disk (as of the last checkpoint) still points to.
+            deallocated_page.mark_dirty();
             self.cache_frame(deallocated_page)?;
         };
 
